@@ -1,6 +1,459 @@
-//! `vh-graph hist` — multi-replica delivery histories from `tla/Replica.tla` (filled in below).
-use vrt::Args;
+//! `vh-graph hist` — replay of `tla/Replica.tla` behaviours: several real replicas, actions
+//! (lazy-merge collapse), sync deliveries into transactions, poison commands, flushes,
+//! commits.  After every step the acting replica's projection is compared with the `view`
+//! the spec recorded, and replicas are compared with each other.
+//!
+//! Verdict keys (DESIGN §2.2 — only the property's own predicate):
+//!   C01:diverge            two replicas with equal committed sets differ (heads / facts / hello)
+//!   C03:seq|kv             committed fact state differs from the reference braid
+//!   C04:action-view|collapse-effects|hello     action observed other facts than queries; collapse emitted effects
+//!   C05:missed|spurious    ParallelFinalize wrong
+//!   C06:*                  rejected command left a trace / orphan of a rejected command accepted
+//!   C07:*                  action not atomic
+//!   C08:*                  committed set shrank / commit outcome wrong
+//!   C09:*                  head set is not the sorted frontier
+//!   C19:*                  hello suppressed a needed sync
+use std::collections::{BTreeMap, BTreeSet};
 
-pub fn run(_args: &Args) {
-    vrt::die("hist: not built yet");
+use aranya_runtime::{ClientError, PolicyError, Prior, Priority};
+use vrt::{json, Args, Value, J};
+
+use crate::{
+    audit::{self, AAction, ACmd, ASink, Publish},
+    braid::frontier,
+    ids,
+    replica::{err_class, Replica, Txn, View},
+};
+
+struct Fail {
+    key: String,
+    msg: String,
+    step: usize,
+}
+
+struct World {
+    reps: BTreeMap<u64, Replica>,
+    txns: BTreeMap<(u64, u64), Txn>,
+    /// node -> real command
+    uni: BTreeMap<u64, ACmd>,
+    by_id: BTreeMap<[u8; 32], u64>,
+    parents: BTreeMap<[u8; 32], Vec<[u8; 32]>>,
+    merge_tag: u8,
+    /// last real view per replica
+    views: BTreeMap<u64, View>,
+    hellos: BTreeMap<u64, [u8; 32]>,
+    poison_ids: BTreeSet<[u8; 32]>,
+    nfail: u8,
+}
+
+impl World {
+    fn label(&self, id: &[u8; 32]) -> String {
+        match self.by_id.get(id) {
+            Some(n) => n.to_string(),
+            None => format!("?{}", ids::hex(id)),
+        }
+    }
+    fn labels(&self, v: &[[u8; 32]]) -> Vec<String> {
+        v.iter().map(|i| self.label(i)).collect()
+    }
+    fn register(&mut self, n: u64, cmd: ACmd) {
+        let id = *cmd.id.as_array();
+        let ps = match cmd.parent {
+            Prior::None => vec![],
+            Prior::Single(p) => vec![*p.id.as_array()],
+            Prior::Merge(l, r) => vec![*l.id.as_array(), *r.id.as_array()],
+        };
+        self.by_id.insert(id, n);
+        self.parents.insert(id, ps);
+        self.uni.insert(n, cmd);
+    }
+    fn register_node(&mut self, rec: &Value) -> Result<(), String> {
+        let n = rec.u("n");
+        if self.uni.contains_key(&n) {
+            return Ok(());
+        }
+        let par: Vec<u64> = rec.a("par").iter().map(|v| v.as_u64().unwrap()).collect();
+        let kind = rec.s("kind");
+        let cmd = match kind {
+            "merge" => {
+                let l = self.uni.get(&par[0]).ok_or("merge parent unknown")?.address();
+                let r = self.uni.get(&par[1]).ok_or("merge parent unknown")?.address();
+                let id = ids::merge_id(l.id.as_array(), r.id.as_array(), self.merge_tag).ok_or("merge id too long")?;
+                let (l, r) = if l.id < r.id { (l, r) } else { (r, l) };
+                ACmd::new(id, Priority::Merge, Prior::Merge(l, r), b'm', &format!("m{n}"))
+            }
+            _ => {
+                let p = self.uni.get(&par[0]).ok_or("parent unknown")?.address();
+                let prio = if kind == "fin" { Priority::Finalize } else { Priority::Basic(rec.u("prio") as u32) };
+                ACmd::new(ids::basic_id(rec.u("rank") as u8, 0), prio, Prior::Single(p), rec.s("op").as_bytes()[0], &n.to_string())
+            }
+        };
+        self.register(n, cmd);
+        Ok(())
+    }
+    fn view_json(&self, v: &View) -> Value {
+        json!({"heads": self.labels(&v.heads), "committed": v.reachable.iter().map(|i| self.label(i)).collect::<Vec<_>>(),
+               "seq": v.seq, "kv": v.kv})
+    }
+}
+
+fn f(step: usize, key: &str, msg: String) -> Fail {
+    Fail { key: key.into(), msg, step }
+}
+
+/// Compare the real view of replica r with the spec's expected view; returns the real view.
+fn check_view(w: &mut World, r: u64, exp: &Value, step: usize, poison_involved: bool) -> Result<View, Fail> {
+    let rep = w.reps.get_mut(&r).unwrap();
+    let v = rep.view().map_err(|e| f(step, "tool:view", e))?;
+    let hello = rep.hello().map_err(|e| f(step, "C04:hello-error", format!("hello_head failed: {}", err_class(&e))))?;
+    let got = w.view_json(&v);
+    // --- C06: nothing of a rejected command may be visible
+    if v.reachable.iter().any(|i| w.poison_ids.contains(i)) {
+        return Err(f(step, "C06:poison-stored", format!("a command rejected at origin is in the committed graph; {got}")));
+    }
+    if v.seq.iter().any(|l| l == "POISON" || l.starts_with('P')) || v.kv.iter().any(|(k, _)| k == "poison") {
+        return Err(f(step, "C06:poison-facts", format!("facts written by a rejected rule survived; {got}")));
+    }
+    // --- C09: independent frontier
+    let fr = frontier(&v.reachable, &w.parents);
+    if v.heads != fr {
+        return Err(f(step, "C09:frontier", format!("head set {:?} is not the sorted frontier {:?} of the committed graph", w.labels(&v.heads), w.labels(&fr))));
+    }
+    // --- committed set
+    let exp_committed: BTreeSet<[u8; 32]> =
+        exp.a("committed").iter().map(|n| *w.uni[&n.as_u64().unwrap()].id.as_array()).collect();
+    if v.reachable != exp_committed {
+        let lost: Vec<String> = exp_committed.difference(&v.reachable).map(|i| w.label(i)).collect();
+        let extra: Vec<String> = v.reachable.difference(&exp_committed).map(|i| w.label(i)).collect();
+        let key = if poison_involved && !lost.is_empty() { "C06:accepted-lost" } else if !lost.is_empty() { "C08:commit-set-lost" } else { "C08:commit-set-extra" };
+        return Err(f(step, key, format!("committed graph differs from previous graph + accepted commands: missing {lost:?}, unexpected {extra:?}; {got}")));
+    }
+    let exp_heads: Vec<[u8; 32]> = exp.a("heads").iter().map(|n| *w.uni[&n.as_u64().unwrap()].id.as_array()).collect();
+    if v.heads != exp_heads {
+        return Err(f(step, "C09:heads", format!("heads {:?}, expected {:?}", w.labels(&v.heads), w.labels(&exp_heads))));
+    }
+    // --- facts = reference braid
+    let exp_seq: Vec<String> = exp.a("seq").iter().map(|n| n.as_u64().unwrap().to_string()).collect();
+    if v.seq != exp_seq {
+        return Err(f(step, "C03:seq", format!("fact state differs from the reference braid: expected seq {exp_seq:?}; {got}")));
+    }
+    let k = exp.u("k");
+    let exp_kv: Vec<(String, String)> = if k == 0 { vec![] } else { vec![("k".into(), k.to_string())] };
+    if v.kv != exp_kv {
+        return Err(f(step, "C03:kv", format!("keyed facts differ from the reference braid: expected {exp_kv:?}; {got}")));
+    }
+    // --- hello = fold of the head set
+    let mut q: std::collections::VecDeque<[u8; 32]> = exp_heads.iter().copied().collect();
+    while q.len() > 1 {
+        let (l, rr) = (q.pop_front().unwrap(), q.pop_front().unwrap());
+        q.push_back(ids::merge_id(&l, &rr, w.merge_tag).ok_or_else(|| f(step, "tool:id", "fold id too long".into()))?);
+    }
+    if *hello.id.as_array() != q[0] {
+        return Err(f(step, "C04:hello", format!("hello head {} is not the pairwise fold of the head set", ids::hex(hello.id.as_array()))));
+    }
+    // --- C08: history only grows
+    if let Some(prev) = w.views.get(&r) {
+        if !prev.reachable.is_subset(&v.reachable) {
+            let lost: Vec<String> = prev.reachable.difference(&v.reachable).map(|i| w.label(i)).collect();
+            return Err(f(step, "C08:history-shrank", format!("committed commands disappeared: {lost:?}")));
+        }
+    }
+    w.views.insert(r, v.clone());
+    w.hellos.insert(r, *hello.id.as_array());
+    // --- C01: replicas with the same committed set agree
+    for (&p, pv) in &w.views {
+        if p != r && pv.reachable == v.reachable {
+            if pv != &v || w.hellos.get(&p) != w.hellos.get(&r) {
+                return Err(f(step, "C01:diverge", format!("replicas {r} and {p} hold the same commands but differ: {} vs {}", w.view_json(&v), w.view_json(pv))));
+            }
+        }
+    }
+    Ok(v)
+}
+
+/// C19 on the current real state of every ordered pair of replicas.
+fn check_hello(w: &mut World, step: usize) -> Result<(), Fail> {
+    let ids_: Vec<u64> = w.reps.keys().copied().collect();
+    for &p in &ids_ {
+        if !w.reps.get_mut(&p).unwrap().exists() {
+            continue;
+        }
+        let hp = match w.reps.get_mut(&p).unwrap().hello() {
+            Ok(h) => h,
+            Err(_) => continue,
+        };
+        let pv = match w.reps.get_mut(&p).unwrap().view() {
+            Ok(v) => v.reachable,
+            Err(_) => continue,
+        };
+        for &r in &ids_ {
+            if r == p {
+                continue;
+            }
+            let exists = w.reps.get_mut(&r).unwrap().exists();
+            let ss = w.reps.get_mut(&r).unwrap().should_sync(hp).map_err(|e| f(step, "C19:error", format!("should_sync_on_hello failed: {}", err_class(&e))))?;
+            if !exists {
+                if !ss {
+                    return Err(f(step, "C19:missing-graph", format!("replica {r} lacks the graph but decided not to sync")));
+                }
+                continue;
+            }
+            if !ss {
+                let rv = w.reps.get_mut(&r).unwrap().view().map_err(|e| f(step, "tool:view", e))?.reachable;
+                let surplus: Vec<[u8; 32]> = pv.difference(&rv).copied().collect();
+                if !surplus.is_empty() {
+                    let only_merges = surplus.iter().all(|i| w.uni[&w.by_id[i]].bytes[0] == b'm');
+                    let key = if only_merges { "C19:lazy-merge-surplus" } else { "C19:suppressed" };
+                    return Err(f(step, key, format!("replica {r} decided not to sync after {p}'s hello although {p} has {:?} which {r} lacks", w.labels(&surplus))));
+                }
+            }
+        }
+    }
+    Ok(())
+}
+
+fn run_beh(beh: &Value, args: &Args, notes: &mut Vec<String>) -> Result<(u64, usize), Fail> {
+    let merge_tag = args.opt_u64("merge_tag", 2) as u8;
+    audit::set_merge_tag(merge_tag);
+    let nreps = args.opt_u64("reps", 2);
+    let mut w = World {
+        reps: BTreeMap::new(),
+        txns: BTreeMap::new(),
+        uni: BTreeMap::new(),
+        by_id: BTreeMap::new(),
+        parents: BTreeMap::new(),
+        merge_tag,
+        views: BTreeMap::new(),
+        hellos: BTreeMap::new(),
+        poison_ids: BTreeSet::new(),
+        nfail: 0,
+    };
+    for r in 1..=nreps {
+        w.reps.insert(r, Replica::new(ids::init_id()));
+    }
+    let mut drift = 0u64;
+    // replica 1 creates the graph with a real new_graph action publishing the init command
+    let init = ACmd::new(ids::init_id(), Priority::Init, Prior::None, b'n', "1");
+    w.register(1, init);
+    {
+        let a = AAction { cmds: vec![Publish { id: ids::init_id(), prio: Priority::Init, op: b'n', label: "1".into() }], fail_after: None };
+        let mut sink = ASink::new();
+        w.reps.get_mut(&1).unwrap().new_graph(&mut sink, &a).map_err(|e| f(0, "tool:new_graph", err_class(&e)))?;
+        let v = w.reps.get_mut(&1).unwrap().view().map_err(|e| f(0, "tool:view", e))?;
+        w.views.insert(1, v);
+        let h = w.reps.get_mut(&1).unwrap().hello().map_err(|e| f(0, "tool:hello", err_class(&e)))?;
+        w.hellos.insert(1, *h.id.as_array());
+    }
+    let mut poisoned: BTreeSet<(u64, u64)> = BTreeSet::new();
+    let steps = beh.a("steps");
+    for (si, st) in steps.iter().enumerate() {
+        let op = st.s("op");
+        let r = st.u("r");
+        audit::take_log();
+        match op {
+            "action" => {
+                for m in st.a("merges") {
+                    w.register_node(m).map_err(|e| f(si, "tool:universe", e))?;
+                }
+                let p = st.g("pub");
+                let kind = p.s("kind");
+                let prio = if kind == "fin" { Priority::Finalize } else { Priority::Basic(p.u("prio") as u32) };
+                let a = AAction {
+                    cmds: vec![Publish { id: ids::basic_id(p.u("rank") as u8, 0), prio, op: p.s("op").as_bytes()[0], label: p.u("n").to_string() }],
+                    fail_after: None,
+                };
+                let before = w.reps.get_mut(&r).unwrap().view().map_err(|e| f(si, "tool:view", e))?;
+                let mut sink = ASink::new();
+                audit::OBSERVED.with(|o| *o.borrow_mut() = None);
+                let res = w.reps.get_mut(&r).unwrap().action(&mut sink, &a);
+                if let Err(e) = &res {
+                    return Err(f(si, "C07:action-failed", format!("action failed although its policy accepts: {}", err_class(e))));
+                }
+                // C04: the action observed exactly what queries saw before; the collapse emitted nothing
+                let seen = audit::OBSERVED.with(|o| o.borrow_mut().take());
+                if let Some((seq, kv)) = seen {
+                    if seq != before.seq || kv != before.kv {
+                        return Err(f(si, "C04:action-view", format!("action observed seq {seq:?} kv {kv:?} but queries on the multi-head graph saw seq {:?} kv {:?}", before.seq, before.kv)));
+                    }
+                }
+                let eff: Vec<String> = sink.committed.iter().map(|e| e.label.clone()).collect();
+                if eff != vec![p.u("n").to_string()] || !sink.rolled_back.is_empty() {
+                    return Err(f(si, "C04:collapse-effects", format!("action delivered effects {eff:?}; expected only the published command's")));
+                }
+                if audit::take_log().iter().any(|c| c.merge) {
+                    return Err(f(si, "C02:merge-evaluated", "a merge command reached call_rule during collapse".into()));
+                }
+                w.register_node(p).map_err(|e| f(si, "tool:universe", e))?;
+                let v = check_view(&mut w, r, st.g("view"), si, false)?;
+                // C07: one new head descending from every previous head
+                if v.heads.len() != 1 || !before.reachable.is_subset(&v.reachable) {
+                    return Err(f(si, "C07:not-one-head", format!("after a successful action heads = {:?}", w.labels(&v.heads))));
+                }
+            }
+            "action_fail" => {
+                w.nfail += 1;
+                let j = st.u("j") as usize;
+                let a = AAction {
+                    cmds: vec![Publish { id: ids::basic_id(240 + w.nfail, 0), prio: Priority::Basic(0), op: b's', label: format!("F{}", w.nfail) }],
+                    fail_after: Some(j),
+                };
+                let before = w.reps.get_mut(&r).unwrap().view().map_err(|e| f(si, "tool:view", e))?;
+                let hb = w.reps.get_mut(&r).unwrap().hello().ok();
+                let mut sink = ASink::new();
+                let res = w.reps.get_mut(&r).unwrap().action(&mut sink, &a);
+                match res {
+                    Err(ClientError::PolicyError(PolicyError::Rejected)) => {}
+                    Ok(()) => return Err(f(si, "C07:failed-action-committed", "an action whose policy failed returned Ok".into())),
+                    Err(e) => return Err(f(si, "C07:wrong-error", format!("failing action returned {}", err_class(&e)))),
+                }
+                let after = w.reps.get_mut(&r).unwrap().view().map_err(|e| f(si, "tool:view", e))?;
+                let ha = w.reps.get_mut(&r).unwrap().hello().ok();
+                if after != before || ha != hb {
+                    return Err(f(si, "C07:failed-action-trace", format!("failed action changed the committed state: before {} after {}", w.view_json(&before), w.view_json(&after))));
+                }
+                if !sink.committed.is_empty() {
+                    return Err(f(si, "C07:failed-action-effects", format!("failed action committed effects {:?}", sink.committed)));
+                }
+                check_view(&mut w, r, st.g("view"), si, false)?;
+            }
+            "deliver" | "syncall" => {
+                let t = if op == "syncall" { 99 } else { st.u("t") };
+                let cmds: Vec<ACmd> = st.a("cmds").iter().map(|n| w.uni[&n.as_u64().unwrap()].clone()).collect();
+                let rep = w.reps.get_mut(&r).unwrap();
+                let mut txn = w.txns.remove(&(r, t)).unwrap_or_else(|| rep.txn());
+                let mut sink = ASink::new();
+                let res = rep.deliver(&mut txn, &mut sink, &cmds);
+                if op == "syncall" {
+                    if let Err(e) = &res {
+                        return Err(f(si, "C17:syncall-deliver", format!("delivering a peer's missing commands parents-first failed: {}", err_class(e))));
+                    }
+                    let cres = rep.commit(txn, &mut sink);
+                    let exp = st.s("res");
+                    match (&cres, exp) {
+                        (Ok(_), "ok") => {}
+                        (Err(ClientError::ParallelFinalize), "ParallelFinalize") => {}
+                        (Ok(_), "ParallelFinalize") => return Err(f(si, "C05:missed-parallel-finalize", "concurrent finalize commands were committed".into())),
+                        (Err(ClientError::ParallelFinalize), _) => return Err(f(si, "C05:spurious-parallel-finalize", "finalize commands are causally ordered".into())),
+                        (Err(e), _) => return Err(f(si, "C08:commit-failed", format!("commit failed: {}", err_class(e)))),
+                        (Ok(_), _) => drift += 1,
+                    }
+                    check_view(&mut w, r, st.g("view"), si, false)?;
+                } else {
+                    let exp = st.s("res");
+                    let got = match &res {
+                        Ok(_) => "ok".to_string(),
+                        Err(e) => err_class(e),
+                    };
+                    if got != exp {
+                        // the outcome class of add_commands is checked through its consequences at
+                        // commit; a mismatch here is spec/code drift unless a later predicate fails
+                        drift += 1;
+                        notes.push(format!("step {si}: deliver result {got}, spec {exp}"));
+                    } else if let Ok(n) = res {
+                        if n as u64 != st.u("count") {
+                            drift += 1;
+                            notes.push(format!("step {si}: deliver count {n}, spec {}", st.u("count")));
+                        }
+                    }
+                    w.txns.insert((r, t), txn);
+                }
+            }
+            "poison" => {
+                let t = st.u("t");
+                let pid = st.u("pid") as u8;
+                let parent = w.uni[&st.u("parent")].address();
+                let pz = ACmd::new(ids::basic_id(200 + pid, 0), Priority::Basic(0), Prior::Single(parent), b'p', &format!("P{pid}"));
+                w.poison_ids.insert(*pz.id.as_array());
+                let rep = w.reps.get_mut(&r).unwrap();
+                let mut txn = w.txns.remove(&(r, t)).unwrap_or_else(|| rep.txn());
+                let mut sink = ASink::new();
+                let res = rep.deliver(&mut txn, &mut sink, std::slice::from_ref(&pz));
+                match &res {
+                    Err(ClientError::PolicyError(PolicyError::Rejected)) => {}
+                    Ok(_) => return Err(f(si, "C06:rejected-accepted", "a command whose rule failed was accepted".into())),
+                    Err(e) => return Err(f(si, "C06:wrong-error", format!("rejected command produced {}", err_class(e)))),
+                }
+                if !sink.committed.is_empty() || !sink.events.iter().any(|e| e == "rollback") {
+                    return Err(f(si, "C06:effects-not-rolled-back", format!("sink events {:?}", sink.events)));
+                }
+                if st.b("orphan") {
+                    let child = ACmd::new(ids::basic_id(220 + pid, 0), Priority::Basic(0), Prior::Single(pz.address()), b'n', &format!("P{pid}c"));
+                    w.poison_ids.insert(*child.id.as_array());
+                    match rep.deliver(&mut txn, &mut sink, std::slice::from_ref(&child)) {
+                        Err(ClientError::NoSuchParent(_)) => {}
+                        Ok(_) => return Err(f(si, "C06:orphan-accepted", "a command naming a rejected command as parent was accepted".into())),
+                        Err(e) => return Err(f(si, "C06:orphan-wrong-error", format!("child of a rejected command produced {}", err_class(&e)))),
+                    }
+                }
+                poisoned.insert((r, t));
+                w.txns.insert((r, t), txn);
+            }
+            "flush" => {
+                let t = st.u("t");
+                if let Some(mut txn) = w.txns.remove(&(r, t)) {
+                    let rep = w.reps.get_mut(&r).unwrap();
+                    if let Err(e) = rep.flush(&mut txn) {
+                        let key = if poisoned.contains(&(r, t)) { "C06:flush-after-reject" } else { "C08:flush-failed" };
+                        return Err(f(si, key, format!("flush failed: {}", err_class(&e))));
+                    }
+                    w.txns.insert((r, t), txn);
+                }
+            }
+            "commit" => {
+                let t = st.u("t");
+                let was_poisoned = poisoned.remove(&(r, t));
+                let rep = w.reps.get_mut(&r).unwrap();
+                let txn = w.txns.remove(&(r, t)).unwrap_or_else(|| rep.txn());
+                let mut sink = ASink::new();
+                let res = rep.commit(txn, &mut sink);
+                let exp = st.s("res");
+                match (&res, exp) {
+                    (Ok(true), "ok") | (Ok(false), "noop") => {}
+                    (Ok(b), "ok") | (Ok(b), "noop") => {
+                        drift += 1;
+                        notes.push(format!("step {si}: commit returned {b}, spec {exp}"));
+                    }
+                    (Err(ClientError::ConcurrentTransaction), "ConcurrentTransaction") => {}
+                    (Err(ClientError::ParallelFinalize), "ParallelFinalize") => {}
+                    (Ok(_), "ConcurrentTransaction") => {
+                        return Err(f(si, "C08:isolation", "a transaction committed although another commit happened after it first read the heads".into()))
+                    }
+                    (Err(ClientError::ConcurrentTransaction), _) => {
+                        return Err(f(si, "C08:spurious-concurrent", "ConcurrentTransaction although no commit intervened".into()))
+                    }
+                    (Ok(_), "ParallelFinalize") => return Err(f(si, "C05:missed-parallel-finalize", "concurrent finalize commands were committed".into())),
+                    (Err(ClientError::ParallelFinalize), _) => return Err(f(si, "C05:spurious-parallel-finalize", "finalize commands are causally ordered".into())),
+                    (Err(e), _) => {
+                        let key = if was_poisoned { "C06:commit-after-reject" } else { "C08:commit-failed" };
+                        return Err(f(si, key, format!("commit of accepted commands failed: {}", err_class(e))));
+                    }
+                    (Ok(_), _) => drift += 1,
+                }
+                check_view(&mut w, r, st.g("view"), si, was_poisoned)?;
+            }
+            o => return Err(f(si, "tool:op", format!("unknown op {o}"))),
+        }
+        if args.opt_bool("hello") {
+            check_hello(&mut w, si)?;
+        }
+    }
+    Ok((drift, steps.len()))
+}
+
+pub fn run(args: &Args) {
+    let mut out = args.out();
+    for (i, beh) in args.read_input().iter().enumerate() {
+        let mut notes = vec![];
+        match vrt::catch_any(|| run_beh(beh, args, &mut notes)) {
+            Ok(Ok((drift, n))) => out.emit(json!({"i": i, "ok": true, "step": -1, "drift": drift, "obs": {"steps": n, "drift_notes": notes}})),
+            Ok(Err(fl)) => {
+                if fl.key.starts_with("tool:") {
+                    vrt::die(&format!("behaviour {i} step {}: {}: {}", fl.step, fl.key, fl.msg));
+                }
+                out.fail(i, fl.step as i64, &fl.key, &fl.msg, Value::Null)
+            }
+            Err(p) => out.fail(i, -1, "C08:panic", &format!("runtime panicked: {p}"), Value::Null),
+        }
+    }
+    out.finish();
 }
